@@ -54,8 +54,69 @@ def known_findings(pid):
     return out
 
 
+BENIGN_ABORTS = ("infeasible", "exhausted", "precondition false")
+
+
+def conc_records(mod, cfg, tag, values_list):
+    """re-run every contributing path concretely on the real code and collect what it contributes"""
+    out = []
+    for vals in values_list:
+        if vals is None:
+            continue
+        try:
+            cctx, st = ex.run_conc(mod.path, cfg, vals)
+        except Exception:  # noqa
+            continue
+        out.extend({"payload": p, "values": vals} for t, p in cctx.contribs if t == tag)
+    return out
+
+
+def finalize_aggregates(mod, cfgs, agg):
+    """cross-path obligations: the harness' finalize() judges the table of contributions of every configuration; a failure is
+    replayed by re-running every contributing path concretely and judging the concrete table"""
+    if not hasattr(mod, "finalize"):
+        return
+    by_name = {c.get("name", str(i)): c for i, c in enumerate(cfgs)}
+    for name, tags in sorted(agg.contribs.items()):
+        cfg = by_name.get(name)
+        if cfg is None:
+            continue
+        cut = {k: v for k, v in agg.aborts_cfg.get(name, {}).items() if k not in BENIGN_ABORTS}
+        complete = not cut and not agg.incomplete
+        for tag, recs in sorted(tags.items()):
+            for res in mod.finalize(cfg, tag, recs, complete) or []:
+                lab = res["label"]
+                d = agg.obl.setdefault(lab, {})
+                if res.get("undecided"):
+                    d["unknown"] = d.get("unknown", 0) + 1
+                    agg.notes[res["undecided"]] = agg.notes.get(res["undecided"], 0) + 1
+                    continue
+                st = "unsat" if res["ok"] else "sat"
+                d[st] = d.get(st, 0) + 1
+                if res["ok"]:
+                    continue
+                vl = [r["values"] for r in recs]
+                again = mod.finalize(cfg, tag, conc_records(mod, cfg, tag, vl), complete) or []
+                hit = [x for x in again if not x.get("ok", True) and not x.get("undecided") and x["label"] == lab]
+                agg.violations.append({"label": lab, "sig": (hit[0] if hit else res).get("sig") or lab, "detail": (hit[0] if hit else res).get("detail"),
+                                       "config": cfg, "config_name": name, "values": None, "aggregate": {"tag": tag, "values": vl},
+                                       "reproduced": bool(hit), "replay_status": "aggregate table recomputed from concrete re-runs of every path"})
+
+
 def do_replay(pid, mod, path):
     doc = json.load(open(path))
+    if doc.get("aggregate"):
+        tag = doc["aggregate"]["tag"]
+        recs = conc_records(mod, doc["config"], tag, doc["aggregate"]["values"])
+        print(f"replay {path}: aggregate '{tag}' over {len(recs)} concrete re-runs")
+        bad = [x for x in (mod.finalize(doc["config"], tag, recs, True) or []) if not x.get("ok", True) and not x.get("undecided")]
+        for x in bad:
+            print(f"  FAILED {x['label']} sig={x.get('sig') or x['label']} detail={x.get('detail')}")
+        if bad:
+            print(f"VIOLATION property={pid} replay={path}")
+            return 1
+        print("  no obligation failed on this replay")
+        return 0
     cctx, st = ex.run_conc(mod.path, doc["config"], doc["values"])
     print(f"replay {path}: status={st}")
     for lab, s, _ in cctx.obligations:
@@ -91,6 +152,7 @@ def main():
     limit = a.time_limit or getattr(mod, "TIME_LIMIT", TIME_LIMIT).get(tier, TIME_LIMIT[tier])
     agg = ex.explore(hpath, tier, len(cfgs), nworkers=a.workers, time_limit=limit,
                      validate_every=getattr(mod, "VALIDATE_EVERY", 25))
+    finalize_aggregates(mod, cfgs, agg)
     extra_ev = {}
     if hasattr(mod, "post_hook"):
         ph = mod.post_hook(tier) or {}
@@ -132,7 +194,7 @@ def main():
         )
     if agg.xcheck_bad:
         harness_errors.append(f"second solver disagrees with z3 5.1 on a dumped obligation: {agg.xcheck_bad[0]}")
-    want = set(getattr(mod, "EXPECTED_LABELS", []))
+    want = set(mod.expected_labels(agg) if hasattr(mod, "expected_labels") else getattr(mod, "EXPECTED_LABELS", []))
     missing = sorted(l for l in want if l not in agg.obl)
     if missing and not reproduced and not agg.incomplete:
         harness_errors.append(f"obligation families never reached: {missing}")
@@ -146,8 +208,10 @@ def main():
     lines = []
     for i, (sig, v) in enumerate(sorted(new.items())):
         rp = os.path.join(rdir, f"{tier}_{i}.json")
-        json.dump({"property": pid, "label": v["label"], "sig": sig, "detail": v["detail"], "config": v["config"],
-                   "values": v["values"]}, open(rp, "w"), indent=1, default=str)
+        doc = {"property": pid, "label": v["label"], "sig": sig, "detail": v["detail"], "config": v["config"], "values": v["values"]}
+        if v.get("aggregate"):
+            doc["aggregate"] = v["aggregate"]
+        json.dump(doc, open(rp, "w"), indent=1, default=str)
         lines.append(f"VIOLATION property={pid} replay={rp}")
         print(f"  violated: {v['label']} [{sig}] config={v['config_name']} detail={v['detail']}")
     for sig, v in sorted(known_hits.items()):
@@ -199,6 +263,7 @@ def main():
             "undecided_abstraction_models": undecided_spurious,
             "known_findings_hit": sorted(known_hits),
             "time_limit_hit": agg.incomplete,
+            "cross_path_tables": {c: {t: len(r) for t, r in d.items()} for c, d in sorted(agg.contribs.items())},
             "extra": extra_ev,
         },
         "assumptions": getattr(mod, "ASSUMPTIONS", []),
